@@ -187,7 +187,8 @@ class CallsMixin:
                                 "root": info.get("root"), "path": info.get("path"),
                                 "symbolic": info.get("symbolic", False), "where": self.loc(node),
                                 "func": self.cur_func(), "stack": tuple(self.where), "text": _txt(node),
-                                "facts": list(env.facts), "seq": next(self.evc), "pc": list(env.pc)})
+                                "facts": list(env.facts), "seq": next(self.evc), "pc": list(env.pc),
+                                "finally_for": getattr(self, "_finally_for", None)})
         env.heap[(oid, mattr)] = val
 
     def assign(self, tgt, val, env, mod, fn):
